@@ -88,6 +88,14 @@ def prog_cases(seed, n, tier):
         part = r.choice(["initial", "initial", "always", "dynamic"])
         cases.append([("rule", part, ("tel", f), ()), ("rule", "always", ("choice", "b"), ())])
     cases += [gen.gen_head_prog(r, ATOMS, 3) for _ in range(n)]
+    # head formulas over classically negated atoms (alone and next to their complements)
+    NEG = ["-a", "a", "-b"]
+    cases += [gen.gen_head_prog(r, NEG, 2) for _ in range(max(8, n // 4))]
+    for f in [("next", 1, False, ("a", "-a")), ("alF", ("a", "-a")), ("b", "and", ("a", "-a"), ("next", 1, False, ("b", "or", ("a", "-b"), ("a", "-a")))),
+              ("unt", ("a", "-a"), ("a", "-b")), ("b", "or", ("a", "-a"), ("next", 1, True, ("a", "-b"))), ("evF", ("b", "and", ("a", "-a"), ("a", "-b")))]:
+        for part in ("initial", "always"):
+            cases.append([("rule", part, ("tel", f), ())])
+            cases.append([("rule", part, ("tel", f), ()), ("rule", "always", ("choice", "a"), ())])
     # two rules whose head formulas are two spellings of one formula (telingo keys head formulas by representation)
     for _ in range(24 if tier == "quick" else 300):
         fa, fb = gen.alias_pair(r, ATOMS, head=True, depth=r.randint(0, 1))
